@@ -121,13 +121,17 @@ def StampsOK (σ : State) : Act → Prop
   | .sAdd i => Others σ i (fun y => !y.spc.stamped || y.stamp != σ.clock)
   | _ => True
 
-/-- **window (ii)**: no `addLocalShard` of a shard between the two deletes of an `UnregisterShard` of the same shard -/
+/-- **window (ii), closed by the fix of C08-unregister-double-delete** (no hypothesis of a current theorem; used to
+    describe the before-fix witness): no `addLocalShard` of a shard between the two deletes of an `UnregisterShard`
+    of the same shard -/
 def UnregOK (σ : State) : Act → Prop
   | .sAdd i => Others σ i (fun y => y.spc != .unreg)
   | _ => True
 
-/-- **window (iii)**: no other incarnation replaces the shard's channel while a `RegisterShard` of the shard is in
-    progress, and no announcement of a remote owner arrives while the local channel is closed but still registered -/
+/-- **window (iii), closed by the fix of C08-replay-send-on-closed-channel** (no hypothesis of a current theorem; used
+    to describe the before-fix witness): no other incarnation replaces the shard's channel while a `RegisterShard` of
+    the shard is in progress, and no announcement of a remote owner arrives while the local channel is closed but
+    still registered -/
 def ReplayOK (σ : State) : Act → Prop
   | .sSet i => Others σ i (fun y => !y.spc.registering)
   | .replay _ c => ∀ j, j < σ.next → (σ.inc j).shard = c → (σ.inc j).spc.closing = false
